@@ -209,7 +209,7 @@ def run_case(case: dict, want_auto: bool = False) -> dict:
         with contextlib.redirect_stdout(sink):
             H = make_H(interaction_matrix=torch.tensor(U, dtype=torch.float64), hamiltonian_type=ht, dim=dim, num_gpus_to_use=0)
     except Exception as ex:
-        out["fail"].append((f"{tag}:make_H:raises-{type(ex).__name__}", str(ex)[:160]))
+        out["fail"].append((f"{tag}:make_H:raises-{type(ex).__name__}", f"make_H raised {type(ex).__name__} on a valid interaction matrix: " + (str(ex)[:160] or "(MPO constructor: neighbouring bond dimensions differ)")))
         return out
     compare("make_H", 0)
     for g in (1, 2):
@@ -224,7 +224,7 @@ def run_case(case: dict, want_auto: bool = False) -> dict:
                     noise=torch.tensor(cplx_from_json(d["noise"]), dtype=torch.complex128),
                 )
         except Exception as ex:
-            out["fail"].append((f"{tag}:update_H#{g}:raises-{type(ex).__name__}", str(ex)[:160]))
+            out["fail"].append((f"{tag}:update_H#{g}:raises-{type(ex).__name__}", f"update_H raised {type(ex).__name__}: {str(ex)[:160]}"))
             return out
         compare(f"update_H#{g}", g)
     return out
@@ -351,12 +351,13 @@ def run(ctx: Ctx) -> None:
             jobs.append((f"log_{kind}_{ns}", cfg_text(ns, kind, "index", "cAll", False, True)))
 
     def tlc_job(j):
-        return run_tlc("MCMPOAutomaton", None, workdir=ctx.work, name=j[0], cfg_text=j[1], workers=tlc_workers,
+        heavy = int(j[0].split("_")[2]) >= 5
+        return run_tlc("MCMPOAutomaton", None, workdir=ctx.work, name=j[0], cfg_text=j[1], workers=(tlc_workers if heavy else 2),
                        coverage=not j[0].startswith("log_"), timeout=3000)
 
     # heavy ones first; a few JVMs at a time
     jobs.sort(key=lambda j: -int(j[0].split("_")[2]))
-    with ThreadPoolExecutor(max_workers=max(1, procs // tlc_workers)) as ex:
+    with ThreadPoolExecutor(max_workers=max(2, procs // 3)) as ex:
         results = list(ex.map(tlc_job, jobs))
     model = {}
     model_bad = []
